@@ -27,11 +27,12 @@ static int rt_ok(const void* c, size_t cs, size_t n, const void* dict, size_t dl
     ZSTD_freeDCtx(d); w_watch = w;
     return !ZSTD_isError(r) && r == n && !memcmp(g_out, g_src, n);
 }
+static int g_outStable;   /* ZSTD_c_stableOutBuffer contract: same buffer, (size - pos) never changed by the caller. (The input struct below already obeys the stable-in contract.) */
 static size_t stream_all(ZSTD_CCtx* c, size_t n, size_t chunk, size_t outChunk)
 {
     ZSTD_inBuffer in = { g_src, 0, 0 }; ZSTD_outBuffer out = { g_dst, 0, 0 }; int guard = 0;
     for (;;) {
-        in.size = V_MIN(n, in.pos + chunk); out.size = V_MIN(g_dstCap, out.pos + outChunk);
+        in.size = V_MIN(n, in.size + chunk); out.size = g_outStable ? g_dstCap : V_MIN(g_dstCap, out.pos + outChunk);
         ZSTD_EndDirective const dir = in.size == n ? ZSTD_e_end : ZSTD_e_continue;
         size_t const r = ZSTD_compressStream2(c, &out, &in, dir);
         if (ZSTD_isError(r)) return r;
@@ -125,11 +126,14 @@ static void run_cside(long idx)
             {   int o = 0; for (int i = 0; i < P.n && o < (int)sizeof(P.desc) - 16; i++) o += snprintf(P.desc + o, sizeof(P.desc) - (size_t)o, "%s%d=%d", i ? "," : "", (int)P.p[i], P.v[i]); } }
         ZSTD_CCtx_params* cp = ZSTD_createCCtxParams(); int const streaming = (int)vr_u(&r, 2);
         if (ZSTD_isError(vp_apply_params(cp, &P))) { ZSTD_freeCCtxParams(cp); v_stat("params_rejected", 1); break; }
-        if (!streaming && vr_chance(&r, 1, 3)) { ZSTD_CCtxParams_setParameter(cp, ZSTD_c_stableInBuffer, 1); ZSTD_CCtxParams_setParameter(cp, ZSTD_c_stableOutBuffer, 1); }
-        snprintf(desc, sizeof desc, "CCtxParams[%s]", P.desc);
+        int const bufMode = streaming ? (int)vr_u(&r, 4) : (vr_chance(&r, 1, 3) ? 3 : 0);      /* bit 0: stable input, bit 1: stable output (each removes one internal buffer from the estimate) */
+        if (bufMode & 1) ZSTD_CCtxParams_setParameter(cp, ZSTD_c_stableInBuffer, 1); if (bufMode & 2) ZSTD_CCtxParams_setParameter(cp, ZSTD_c_stableOutBuffer, 1);
+        g_outStable = streaming && (bufMode & 2);
+        snprintf(desc, sizeof desc, "CCtxParams[%s] stableIn=%d stableOut=%d", P.desc, bufMode & 1, (bufMode >> 1) & 1);
         size_t const est = streaming ? ZSTD_estimateCStreamSize_usingCCtxParams(cp) : ZSTD_estimateCCtxSize_usingCCtxParams(cp);
         use_static_cctx(streaming ? "estimateCStreamSize_usingCCtxParams(p)+streaming(p)" : "estimateCCtxSize_usingCCtxParams(p)+compress2(p)", est, streaming, 0, NULL, NULL, cp, n, &r, desc);
-        v_cell("est_cell", "cctxparams|%s|ldm%d|tcb%d|mbs%d", streaming ? "stream" : "oneshot", P.ldm, P.targetCBlockSize != 0, P.maxBlockSize != 0);
+        g_outStable = 0;
+        v_cell("est_cell", "cctxparams|%s|ldm%d|tcb%d|mbs%d|buf%d", streaming ? "stream" : "oneshot", P.ldm, P.targetCBlockSize != 0, P.maxBlockSize != 0, bufMode);
         ZSTD_freeCCtxParams(cp);
         break; }
     default: {  /* static CDict / DDict built in exactly their estimates, then used */
@@ -250,6 +254,20 @@ static void run_dside(long idx)
         if (cd) { size_t const so = ZSTD_sizeof_CDict(cd); if (so < ca_live) v_viol("sizeof:CDict-under-reports", "sizeof=%zu held=%zu", so, ca_live); v_stat("sizeof_checks", 1); ZSTD_freeCDict(cd); }
         ca_live = 0; ZSTD_DDict* dd = ZSTD_createDDict_advanced(g_src, dl, vr_chance(&r, 1, 2) ? ZSTD_dlm_byCopy : ZSTD_dlm_byRef, ZSTD_dct_auto, CMEM);
         if (dd) { size_t const so = ZSTD_sizeof_DDict(dd); if (so < ca_live) v_viol("sizeof:DDict-under-reports", "sizeof=%zu held=%zu", so, ca_live); v_stat("sizeof_checks", 1); ZSTD_freeDDict(dd); }
+    }
+    {   /* ZSTD_estimateDStreamSize_fromFrame(): a static DStream of exactly that size decodes that frame, whatever the segmentation (frames of 0..5 bytes and larger,
+         * with and without content size) */
+        static const size_t small[] = { 0, 1, 2, 3, 4, 5, 7, 100, 1000 }; size_t const m = vr_chance(&r, 2, 3) ? small[vr_u(&r, 9)] : 1 + vr_u64(&r, V_MIN(g_srcCap - 1, (size_t)400000));
+        ZSTD_CCtx* c = ZSTD_createCCtx(); ZSTD_CCtx_setParameter(c, ZSTD_c_compressionLevel, (int)vr_range(&r, 1, 9)); ZSTD_CCtx_setParameter(c, ZSTD_c_checksumFlag, (int)vr_u(&r, 2)); if (vr_chance(&r, 1, 3)) ZSTD_CCtx_setParameter(c, ZSTD_c_contentSizeFlag, 0); if (vr_chance(&r, 1, 3)) ZSTD_CCtx_setParameter(c, ZSTD_c_windowLog, (int)vr_range(&r, 10, 20));
+        size_t const fs2 = vr_chance(&r, 1, 2) ? ZSTD_compress2(c, g_dst, g_dstCap, g_src, m) : make_frame(&r, (int)vr_range(&r, 10, 20), m, (int)vr_u(&r, 2), g_dst, g_dstCap); ZSTD_freeCCtx(c);
+        if (!ZSTD_isError(fs2)) { size_t const est = ZSTD_estimateDStreamSize_fromFrame(g_dst, fs2);
+            if (ZSTD_isError(est)) v_viol("fromFrame:estimate-fails-on-a-valid-frame", "m=%zu: %s", m, ZSTD_getErrorName(est));
+            else { wksp W = wk_alloc(est); w_allocs = 0; w_watch = 1; ZSTD_DStream* d = ZSTD_initStaticDStream(W.p, est);
+                if (!d) { w_watch = 0; v_viol("initStaticDStream-fails-with-own-estimate", "fromFrame m=%zu est=%zu", m, est); }
+                else { size_t prod = 0; size_t const ic = 1 + vr_u(&r, vr_chance(&r, 1, 2) ? 3 : 3000), oc = 1 + vr_u(&r, vr_chance(&r, 1, 2) ? 3 : 5000); size_t const ret = dstream_buffered(d, g_dst, fs2, m, ic, oc, &prod); w_watch = 0;
+                    if (ZSTD_isError(ret) || prod != m) v_viol("fromFrame:static-dstream-of-the-estimated-size-fails", "content=%zu frame=%zu est=%zu in=%zu out=%zu: %s", m, fs2, est, ic, oc, ZSTD_isError(ret) ? ZSTD_getErrorName(ret) : "short output");
+                    if (w_allocs) v_viol("static-context-called-the-allocator", "static DStream (fromFrame) m=%zu: %ld call(s)", m, w_allocs); v_stat("fromFrame_static_decodes", 1); }
+                if (!wk_ok(&W)) v_viol("static-context-wrote-outside-its-block", "static DStream (fromFrame) m=%zu est=%zu", m, est); wk_free(&W); } }
     }
     v_sample("%s", desc);
 }
